@@ -115,8 +115,9 @@ def find_islands(im, bkg, rms,
         if np.any(snr[xmin:xmax, ymin:ymax][own] > seed_clip):
             # obey region constraint
             if region is not None:
-                y, x = np.where(snr[xmin:xmax, ymin:ymax] >= flood_clip)
-                yx = list(zip(y + ymin, x + xmin))
+                x, y = np.where(own)
+                # FITS pixels are 1-based and ordered (column, row)
+                yx = list(zip(y + ymin + 1, x + xmin + 1))
                 ra, dec = wcs.wcs.wcs_pix2world(yx, 1).transpose()
                 mask = region.sky_within(ra, dec, degin=True)
                 if not np.any(mask):
